@@ -1,7 +1,7 @@
-\* simulation: deeper nestings (up to 4 wrappers on up to 2 structured-topology operations), all bases
+\* simulation: deeper nestings (up to 3 wrappers on up to 2 structured-topology operations), all bases
 SPECIFICATION Spec
 CONSTANTS
-  MaxDepth = 4
+  MaxDepth = 3
   MaxStructOps = 2
   MaxElems = 16
   TailLen = 2
